@@ -11,6 +11,36 @@ def showDecL {α} (b : Bytes) (enc : α → Bytes) (len : α → Nat) (r : Optio
 def showDec {α} (b : Bytes) (enc : α → Bytes) (r : Option (α × Bytes)) : String :=
   showDecL b enc (fun x => (enc x).length) r
 
+/-- `deserialize` (strict) through the model's `strict`: `err` | `ok <re-encoded hex>` -/
+def showStrict {α} (enc : α → Bytes) (r : Option α) : String :=
+  match r with
+  | none => "err"
+  | some x => s!"ok {Hex.encode (enc x)}"
+
+def strictByName (t : String) (b : Bytes) : Option String :=
+  let utf8 := fun (bs : Bytes) => (String.fromUTF8? (ByteArray.mk bs.toArray)).isSome
+  match t with
+  | "tx" => some (showStrict encTx (strict tx b))
+  | "prefix" => some (showStrict encPrefix (strict prefix' b))
+  | "txin" => some (showStrict encTxIn (strict txin b))
+  | "txout" => some (showStrict encTxOut (strict txout b))
+  | "target" => some (showStrict encTarget (strict target b))
+  | "block" => some (showStrict encBlock (strict block b))
+  | "header" => some (showStrict encHeader (strict header b))
+  | "bp" => some (showStrict encBP (strict bp b))
+  | "bpp" => some (showStrict encBPP (strict bpp b))
+  | "vec_varint" => some (showStrict (encVec encVarint) (strict (vec sizes.varint varint) b))
+  | "vec_key" => some (showStrict (encVec id) (strict (vec sizes.key key) b))
+  | "box_key" => some (showStrict (encVec id) (strict (vec sizes.key key) b))
+  | "vec_u8" => some (showStrict (encVec (fun x => [x])) (strict (vec sizes.u8 u8) b))
+  | "string" => some (showStrict encString (strict (stringDec utf8) b))
+  | "vec_txin" => some (showStrict (encVec encTxIn) (strict (vec sizes.txin txin) b))
+  | "vec_txout" => some (showStrict (encVec encTxOut) (strict (vec sizes.txout txout) b))
+  | "rcttype" => some (showStrict encRctType (strict rctType b))
+  | "key" => some (showStrict id (strict key b))
+  | "u32" => some (showStrict (encUintLE 4) (strict (uintLE 4) b))
+  | _ => none
+
 def decByName (t : String) (b : Bytes) : Option String :=
   match t with
   | "tx" => some (showDecL b encTx lenTx (tx b))
@@ -37,10 +67,24 @@ def decByName (t : String) (b : Bytes) : Option String :=
   | "string" => some (showDecL b encString lenString (stringDec (fun bs => (String.fromUTF8? (ByteArray.mk bs.toArray)).isSome) b))
   | "vec_txin" => some (showDec b (encVec encTxIn) (vec sizes.txin txin b))
   | "vec_txout" => some (showDec b (encVec encTxOut) (vec sizes.txout txout b))
+  | "rcttype" => some (showDec b encRctType (rctType b))
+  | "bool" => some (showDec b encBool (boolDec b))
+  | "i8" => some (showDec b (encIntLE 1) (intLE 1 b))
+  | "i16" => some (showDec b (encIntLE 2) (intLE 2 b))
+  | "i32" => some (showDec b (encIntLE 4) (intLE 4 b))
+  | "i64" => some (showDec b (encIntLE 8) (intLE 8 b))
+  -- `Box<[T]>` (encode.rs:537-564) is a separately written copy of the `Vec<T>` codec; `Vec<Hash>`, `MultisigOut { c : Vec<Key> }`
+  | "box_key" => some (showDec b (encVec id) (vec sizes.key key b))
+  | "vec_hash" => some (showDec b (encVec id) (vec sizes.key key b))
+  | "msout" => some (showDec b (encVec id) (vec sizes.key key b))
+  | "box_u8" => some (showDec b (encVec (fun x => [x])) (vec sizes.u8 u8 b))
+  | "box_varint" => some (showDec b (encVec encVarint) (vec sizes.varint varint b))
+  | "klrki" => some (showDec b id (klrki b))
   | _ => none
 
 def stepCodec : Step
   | ["c01_dec", t, h] => (decByName t (Hex.decode h)).map fun m => (m, "-")
+  | ["c01_strict", t, h] => (strictByName t (Hex.decode h)).map fun m => (m, "-")
   | ["c01_dec_base", i, o, h] => do
     let i ← i.toNat?; let o ← o.toNat?
     let b := Hex.decode h
